@@ -209,6 +209,26 @@ type dslPrintObs struct {
 	Assignable  map[string]bool `json:"assignable"`            // utils.IsRelationAssignable per "type#relation"
 }
 
+var poisonCache []*openfgav1.AuthorizationModel
+
+// poisonModels are models TransformJSONProtoToDSL refuses after it has rendered part of them.
+func poisonModels() []*openfgav1.AuthorizationModel {
+	if poisonCache != nil {
+		return poisonCache
+	}
+	for _, js := range []string{
+		`{"schema_version":"1.1","type_definitions":[{"type":"user"},{"type":"doc","relations":{"a":{"this":{}}},"metadata":{"relations":{"a":{"directly_related_user_types":[{"type":"user","condition":"aaa_ok"}]}}}}],"conditions":{"aaa_ok":{"name":"aaa_ok","expression":"x < 1","parameters":{"x":{"type_name":"TYPE_NAME_INT"}}},"zzz_bad":{"name":"other_name","expression":"STALE && y % 2 == 0","parameters":{"y":{"type_name":"TYPE_NAME_INT"}}}}}`,
+		`{"schema_version":"1.2","type_definitions":[{"type":"aaa","relations":{"ok":{"this":{}}},"metadata":{"module":"stale_module","source_info":{"file":"stale.fga"},"relations":{"ok":{"directly_related_user_types":[{"type":"aaa"}]}}}},{"type":"zzz","relations":{"a":{"this":{}},"bad":{"union":{"child":[{"computedUserset":{"relation":"a"}},{"intersection":{"child":[{"computedUserset":{"relation":"a"}},{"this":{}}]}}]}}},"metadata":{"module":"stale_module","relations":{"a":{"directly_related_user_types":[{"type":"aaa"}]},"bad":{"directly_related_user_types":[{"type":"aaa"}]}}}}]}`,
+	} {
+		m, err := transformer.LoadJSONStringToProto(js)
+		if err != nil {
+			panic(err)
+		}
+		poisonCache = append(poisonCache, m)
+	}
+	return poisonCache
+}
+
 func dslPrint(args []string) error {
 	fs := flag.NewFlagSet("dsl-print", flag.ExitOnError)
 	in := fs.String("in", "", "input ndjson")
@@ -325,6 +345,17 @@ func dslPrint(args []string) error {
 			}
 			for rep := 0; rep < 3; rep++ {
 				obs.NVariants++
+				if rep == 1 {
+					// between two renderings of the same document: calls the printer REJECTS half way through (a condition stored
+					// under another key after a well-formed one, an inexpressible relation after expressible ones) - whatever a failed
+					// call leaves behind must not reach the next output
+					for _, pm := range poisonModels() {
+						guard(func() (string, error) { return transformer.TransformJSONProtoToDSL(pm) })
+						guard(func() (string, error) {
+							return transformer.TransformJSONProtoToDSL(pm, transformer.WithIncludeSourceInformation(true))
+						})
+					}
+				}
 				add(guard(func() (string, error) {
 					s, err := transformer.TransformJSONStringToDSL(string(doc))
 					if err != nil {
